@@ -371,11 +371,9 @@ def r6(ctx):
 
 
 def run(ctx):
+    # (thorough tier: ./check evaluates every rule a second time over the build with descriptive-deserialize-errors - code that
+    # exists only there must not add a panic path either)
     T = r1(ctx)
-    if ctx.tier == "thorough":
-        # the same taint analysis over the build with descriptive-deserialize-errors: code that exists only there must not
-        # add a panic path either (sites shared with configuration A are re-evaluated under the same keys)
-        r1(ctx, "B")
     r2(ctx)
     r3(ctx)
     r4(ctx)
